@@ -622,7 +622,15 @@ class Interp(object):
                     out.extend(self.decide(key, key, roles(a2) | roles(b2), s2, refine))
             return out
         out = []
-        for v, s1 in self.ev(e, s):
+        pred = e is not None and e.k == "CallExpr"
+        if pred:
+            self.in_cond = getattr(self, "in_cond", 0) + 1     # predicates of the repo are inlined
+        try:
+            vals = self.ev(e, s)
+        finally:
+            if pred:
+                self.in_cond -= 1
+        for v, s1 in vals:
             v2 = vsubst(v, s1.subst)
             t = self.truth(v2)
             if t is not None:
@@ -705,9 +713,20 @@ class Interp(object):
         if name in WRITERS:
             return [(("call", name, tuple(vals)), s)]
         fn = self.tu.funcs.get(name) if name else None
-        if fn is not None and self.tu.body(name) is not None and self.depth < 4 and self.inline_worthy(vals):
+        if fn is not None and self.tu.body(name) is not None and self.depth < 4 and \
+                (self.inline_worthy(vals) or (getattr(self, "in_cond", 0) and self.is_predicate(name))):
             return self.inline(name, vals, s)
         return [(("call", name or "?", tuple(v for v in vals if roles(v))), s)]
+
+    def is_predicate(self, name):
+        """a small loop-free function returning int: a test factored out"""
+        fn = self.tu.funcs.get(name)
+        if fn is None or (fn.t or "").split("(")[0].strip() not in ("int", "_Bool", "long"):
+            return False
+        body = self.tu.body(name)
+        return body is not None and not any(
+            n.k in ("ForStmt", "WhileStmt", "DoStmt", "GotoStmt") for n in body.walk()) and \
+            sum(1 for _ in body.walk()) < 400
 
     def inline_worthy(self, vals):
         for v in vals:
